@@ -56,8 +56,21 @@ def gen_case(rng, tier, index):
     if r < 0.12:
         s, d, v = progmon.triples_of(op)
         n = len(s)
-        kind = rng.choice(["lengths", "lengths", "negative_alone", "negative_mixed"])
-        if kind == "lengths":
+        kind = rng.choice(["lengths", "lengths", "lengths_2d", "negative_alone", "negative_mixed"])
+        if kind == "lengths_2d":
+            # an r x c block of wells on both sides, volumes as one row or one column of that block: r*c wells
+            # against c or r volumes - incompatible lengths, however the shapes look to array broadcasting
+            r_, c_ = rng.choice([(2, 2), (2, 3), (3, 2), (2, 4), (3, 3)])
+            n = r_ * c_
+            s, d, v = (s * n)[:n], (d * n)[:n], (v * n)[:n]
+            blk = lambda xs: [[xs[j * r_ + i] for j in range(c_)] for i in range(r_)]
+            op["sw"], op["dw"] = enc(np.array(blk(s))), enc(np.array(blk(d)))
+            if rng.random() < 0.3:
+                op["sw"] = blk(s)
+            vv = [v[:c_]] if rng.random() < 0.5 else [[x] for x in v[:r_]]
+            op["vol"] = enc(np.array(vv, dtype=float)) if rng.random() < 0.7 else vv
+            case["malformed"] = "lengths:2d_" + ("row" if len(vv) == 1 else "column")
+        elif kind == "lengths":
             n = max(n, 3)
             s = (s * n)[:n]
             d = (d * n)[:n]
